@@ -16,6 +16,7 @@
     actions / changes   the `action` / `onChange` events of a log.
   Tie to the source: NV.Gen.Manager (constants, the two comparisons) is regenerated on every run.
 -/
+import NV.Lemmas.SvcProv
 import NV.Model.SrcUrl
 import NV.Model.RealEp
 import NV.Gen.PkgState
@@ -466,5 +467,26 @@ theorem srcurl_equal_is_reused (prev : List (Nat × SrcUrl.Ep)) (next : Nat) (e 
     exact ⟨(List.mem_filter.mp (List.mem_of_getLast? h)).1, rfl⟩
 
 end SrcUrl
+
+/-! ### the HTTPS-record provider (`SourceHTTPSSVCProvider`), first provider of run.go's manager -/
+section SvcProv
+open NV.SvcProv NV.SvcProvL
+
+/-- **C08 (candidates of the HTTPS-record provider)**: when GetEndpoints succeeds, the bootstrap addresses of the candidates, read
+in candidate order, are exactly the addresses of the ipv4hint / ipv6hint parameters of the answer's HTTPS records, in record
+order: none is lost, none is invented, the order of preference is the order of the answer. -/
+theorem svcprov_addresses_are_the_hints (rrs : List RR) (eps : List SvcProv.Ep) (h : getEndpoints rrs = some eps) :
+    allIps eps = rrs.flatMap (fun r => addrsOf r.params) := by
+  have := loop_ips rrs 0 none [] eps h
+  simpa [allIps] using this
+
+/-- an answer without HTTPS records gives no candidate (the election moves on to the next provider) -/
+theorem svcprov_no_record_no_candidate : getEndpoints [] = some [] := rfl
+
+/-- non-vacuity: two records of priority 1 build one candidate, a record of priority 2 a fallback candidate -/
+example : (getEndpoints [⟨1, [⟨4, [45, 90, 28, 0]⟩]⟩, ⟨1, [⟨4, [45, 90, 30, 0]⟩]⟩, ⟨2, [⟨4, [1, 2, 3, 4]⟩]⟩]).map (·.length) = some 2 := by
+  decide
+
+end SvcProv
 
 end NV.C08
